@@ -4,7 +4,8 @@ gmtls/gm_handshake_messages.go: for each message struct the fields its `unmarsha
 (`unmarshalX : Bytes → Option X`, `none` where the Go method returns false) and what its `marshal()` writes
 for a struct whose `raw` is nil (`marshalX : X → Bytes`).  "Model the code that exists": every length check
 in the order the Go code makes it, the same 8/16/24-bit length arithmetic, the same slices, the same
-tolerance of trailing or ignored bytes.  `data` is the whole handshake message including its 4-byte header
+tolerance of trailing or ignored bytes (the server_name list and the OCSP status request of a ClientHello are
+parsed to their end since the repair "fix: ClientHello: check the lengths inside server_name and status_request").  `data` is the whole handshake message including its 4-byte header
 (type, 24-bit length), as the Go methods receive it.
 
 Conventions.  `d.getD i 0` stands for `d[i]` at places where the Go code has checked `i < len(d)` before (the
@@ -439,20 +440,48 @@ structure ClientHelloMsg where
   alpnProtocols : List Bytes
 deriving DecidableEq, Repr
 
-/-- the loop over the entries of a server_name extension: `none` = return false, `some none` = list
-    exhausted without a host_name entry, `some (some n)` = the first host_name entry (`break`) -/
-def sniLoop : Nat → Bytes → Option (Option Bytes)
-  | 0, _ => none
-  | fuel + 1, d =>
+/-- the loop over the entries of a server_name extension, walked to the end of the list: `none` = return false
+    (an entry that does not fit, an empty host name, a second host_name entry), `some acc` = list exhausted, `acc`
+    the host_name entry seen (`haveHostName` / `m.serverName`), if any -/
+def sniLoop : Nat → Bytes → Option Bytes → Option (Option Bytes)
+  | 0, _, _ => none
+  | fuel + 1, d, acc =>
     if d.length > 0 then
       if d.length < 3 then none else
       let nameType := d.getD 0 0
       let nameLen := get16 (d.getD 1 0) (d.getD 2 0)
       let d := d.drop 3
       if d.length < nameLen then none else
-      if nameType = 0 then some (some (d.take nameLen)) else
-      sniLoop fuel (d.drop nameLen)
-    else some none
+      if nameType = 0 then
+        if nameLen = 0 ∨ acc.isSome then none else sniLoop fuel (d.drop nameLen) (some (d.take nameLen))
+      else sniLoop fuel (d.drop nameLen) acc
+    else some acc
+
+/-- the loop over `responder_id_list` of an OCSPStatusRequest: 2 length bytes each, none empty; `false` = return
+    false -/
+def ridLoop : Nat → Bytes → Bool
+  | 0, _ => false
+  | fuel + 1, ids =>
+    if ids.length > 0 then
+      if ids.length < 2 then false else
+      let idLen := get16 (ids.getD 0 0) (ids.getD 1 0)
+      let ids := ids.drop 2
+      if idLen = 0 ∨ ids.length < idLen then false else ridLoop fuel (ids.drop idLen)
+    else true
+
+/-- the body of a status_request extension of type ocsp after the type byte (`d := data[1:length]`): the
+    responder id list, then the request extensions, which end the body -/
+def ocspRequestOk (d : Bytes) : Bool :=
+  if d.length < 2 then false else
+  let idsLen := get16 (d.getD 0 0) (d.getD 1 0)
+  let d := d.drop 2
+  if d.length < idsLen then false else
+  let ids := d.take idsLen
+  let d := d.drop idsLen
+  if !ridLoop (ids.length + 1) ids then false else
+  if d.length < 2 then false else
+  let extsLen := get16 (d.getD 0 0) (d.getD 1 0)
+  decide (d.length = 2 + extsLen)
 
 /-- one `switch extension { … }` of `clientHelloMsg.unmarshal` with `len(data) ≥ length` checked: the
     message with the fields this extension sets, `none` = return false.  An extension that occurs twice
@@ -464,14 +493,16 @@ def chExtension (m : ClientHelloMsg) (ext length : Nat) (data : Bytes) : Option 
     let namesLen := get16 (d.getD 0 0) (d.getD 1 0)
     let d := d.drop 2
     if d.length ≠ namesLen then none else
-    match sniLoop (d.length + 1) d with
+    match sniLoop (d.length + 1) d none with
     | none => none
     | some none => some m
     | some (some n) => some { m with serverName := n }
   else if ext = 13172 then   -- extensionNextProtoNeg
     if length > 0 then none else some { m with nextProtoNeg := true }
   else if ext = 5 then   -- extensionStatusRequest
-    some { m with ocspStapling := decide (length > 0 ∧ data.getD 0 0 = 1) }
+    let ocsp := decide (length > 0 ∧ data.getD 0 0 = 1)
+    if ocsp && !ocspRequestOk ((data.take length).drop 1) then none else
+    some { m with ocspStapling := ocsp }
   else if ext = 10 then  -- extensionSupportedCurves
     if length < 2 then none else
     let l := get16 (data.getD 0 0) (data.getD 1 0)
